@@ -87,7 +87,7 @@ def replay(data):
         return bool(r.get("accepted"))
     if q == "input_required":
         return not r.get("accepted")
-    if q == "input_image":
+    if q in ("input_image", "input_shadow"):
         return bool(r.get("accepted"))
     return True
 
@@ -104,6 +104,10 @@ def _replay_child(data):
     try:
         pkg = Package(res["files"])
         ci = pkg.resolve("input_types", data["type"])
+        if data.get("q") == "input_shadow":
+            import pydantic as _pyd
+
+            return {"fields": [f.name for f in pkg.all_fields(ci).values()], "accepted": data.get("field") not in [f.name for f in pkg.all_fields(ci).values() if f.name in dir(_pyd.BaseModel)]}
         if data.get("q") == "input_image":
             import ast as _ast
 
